@@ -129,6 +129,9 @@ class ExprMixin:
             sv = self.eval(node.format_spec)
             if isinstance(sv, SeqV) and sv.is_lit():
                 spec = sv.lit_value()
+            elif seqops.split_spec(self, sv) is not None:
+                pre, w, suf = seqops.split_spec(self, sv)
+                return seqops.format_value_symw(self, self.resolve(val), pre, w, suf, node)
             else:
                 self.note_unknown(node, 'non-constant format spec')
                 return seqops.opaque_fresh(self, 'str', 'format(?)', deps=(val,), tags=value_tags(val))
